@@ -175,6 +175,7 @@ theorem na_step (c : Cfg) (s s' : Sys D) (now a x : Nat) (h : Step c s now s')
   cases h with
   | idle => exact hna
   | crash y => exact hna
+  | net cuts => exact hna
   | drop m hm hc => exact hna
   | tick b shuf hb =>
     by_cases hab : a = b
